@@ -95,6 +95,18 @@ Proof. exact gen_expflow_is_expv_call. Qed.
 Theorem C11_SVF_exp_flag_is_grid_flag :
   (forall ac, gen_svf_init_exp_ac ac = ac) /\ (forall old new, gen_svf_regrid_exp_ac old new = new).
 Proof. exact gen_svf_exp_flag_is_grid_flag. Qed.
+(* 4d. inverse(update_buffers=True) of StationaryVelocityFieldTransform and StationaryVelocityFreeFormDeformation (traced on
+       recorder objects): the inverse's u buffer is  exp.inverse()(v)  -- the exponential with the negated scale and the same
+       steps (4b) applied to the shared velocity buffer -- and the original transformation is not modified *)
+Theorem C11_inverse_buffers_use_inverse_exp :
+  gen_svf_inverse_u_by_inverse_exp = true /\ gen_svffd_inverse_u_by_inverse_exp = true.
+Proof. exact gen_inverse_u_by_inverse_exp. Qed.
+(* 4e. expv builds its identity coordinates in the dtype of the field (traced: Grid.coords(dtype=flow.dtype)), so float64 fields
+       are not displaced on float32 coordinates (the model is exact; this pins the one place where the code could lose it) *)
+Theorem C11_coordinates_in_field_dtype : gen_expv_coords_in_field_dtype = true.
+Proof. reflexivity. Qed.
+Print Assumptions C11_coordinates_in_field_dtype.
+Print Assumptions C11_inverse_buffers_use_inverse_exp.
 Print Assumptions C11_SVF_exp_flag_is_grid_flag.
 Print Assumptions C11_ExpFlow_is_expv_call.
 
